@@ -6,7 +6,10 @@ catalogues = rules of burst 1 and 2, the same rule in several rule sets, zero an
 and seeded -simulate walks are replayed on a real RateLimitHandler with real rule sets; after every
 request the RateLimiterResult in the context (ruleset type, description, burst and period of the
 limiter) must be the rule Choose picks from the statement's precedence, evaluated for that request
-on the current rule sets.
+on the current rule sets. What the consensus-nodes function answers is two independent values:
+exists(node) and the suffrage state hash (SetMembers changes both, SetStateHash the hash only,
+SetCandidates exists only); a request judged by the suffrage rule while the node of its address is
+NOT a consensus node gets its own class of key whatever the cache did.
 Enforcement (binding B): the same replays are recorded with the harness clock read around every
 request, together with bursts under one rule during which the harness changes everything but the
 rule; RateLimitTrace.tla judges every limiter instance of every recorded execution by
@@ -24,6 +27,7 @@ CACHED = {"cached-clientid": "cached-clientid-limiter", "cached-net": "cached-ne
           "suffrage-rehash": "cached-suffrage-limiter"}
 PER_NS = 3_000_000_000      # every rule of the catalogues is "<burst> / 3s"
 UNIT = 10_000               # replays: clock and period in units of 10 microseconds (TLC integers are 32 bit)
+CONSENSUS = ("SetMembers", "SetStateHash", "SetCandidates")      # actions that change what IsInConsensusNodesFunc answers
 SETS = {"SetClientID": "cid", "SetNet": "nets", "SetNode": "nodes", "SetSuffrage": "suf", "SetDefault": "def"}
 
 
@@ -65,9 +69,10 @@ def across(hist, row, name, si, sj):
             if inside:
                 labels.add("equal-rule-set" if a["set"] == cur[SETS[a["a"]]] else "other-rule-set")
             cur[SETS[a["a"]]] = a["set"]
-        elif a["a"] == "SetMembers":
+        elif a["a"] in CONSENSUS:
             if inside:
-                labels.add("suffrage-state-hash" if sorted(a["members"]) == sorted(cur["members"]) else "membership")
+                labels.add("suffrage-state-hash" if sorted(a["members"]) == sorted(cur["members"]) else
+                           "membership" if a["a"] == "SetMembers" else "membership-same-state-hash")
             cur["members"] = a["members"]
         elif a["a"] == "AddNode" and inside:
             labels.add("AddNode")
@@ -76,9 +81,9 @@ def across(hist, row, name, si, sj):
     if obs[lo].get("type") != obs[hi].get("type"):
         labels.add("type-flip")
     if obs[lo].get("type") != "suffrage":
-        labels -= {"suffrage-state-hash", "membership"}      # the consensus nodes mean nothing to other limiters
+        labels -= {"suffrage-state-hash", "membership", "membership-same-state-hash"}      # the consensus nodes mean nothing to other limiters
     # the key names one class: the first of these that happened (the text of the violation lists them all)
-    for k in ("type-flip", "suffrage-state-hash", "membership", "equal-rule-set", "other-rule-set", "AddNode", "other-instance"):
+    for k in ("type-flip", "suffrage-state-hash", "membership", "membership-same-state-hash", "equal-rule-set", "other-rule-set", "AddNode", "other-instance"):
         if k in labels:
             return k, "+".join(sorted(labels))
     return "nothing", "nothing"
@@ -146,9 +151,48 @@ def subctx(ctx, k):
     return c
 
 
+def outside_consensus(hist, i):
+    """request i of the history comes from an address whose node is NOT a consensus node at that time (exists(node) is
+    false or no node is known for the address): None, or how the suffrage state hash stands to what it was at the
+    previous request of the same limiter instance ("unchanged" / "changed" / "first-request")"""
+    a = hist[i]
+    members, hsh, at_prev = hist[0].get("members") or [], hist[0].get("hash"), None
+    for j, x in enumerate(hist[:i]):
+        if x["a"] in CONSENSUS:
+            members, hsh = x["members"], x["hash"]
+        elif x["a"] == "Request" and x["addr"] == a["addr"] and x["h"] == a["h"]:
+            at_prev = hsh
+    if a["node"] and a["node"] in members:
+        return None
+    return "first-request" if at_prev is None else "unchanged" if at_prev == hsh else "changed"
+
+
+def prev_suffrage(hist, i):
+    """the previous request of the limiter instance of request i was one the statement gives to the suffrage rule"""
+    a = hist[i]
+    for x in reversed(hist[:i]):
+        if x["a"] == "Request" and x["addr"] == a["addr"] and x["h"] == a["h"]:
+            return x["want"][0] == "suffrage"
+    return False
+
+
+def choice_key(hist, i, got):
+    a = hist[i]
+    if got[0] == "suffrage" and a["want"][0] != "suffrage":
+        # a class of its own, never a cached-*-limiter finding: the suffrage rule is for consensus nodes only
+        out = outside_consensus(hist, i)
+        if out is not None:
+            return "choice(suffrage-rule-outside-consensus-nodes;state-hash=%s)" % out
+    if got == a["impl"] and a["path"] in CACHED:
+        return CACHED[a["path"]]
+    return "choice(path=%s;got=%s;want=%s)" % (a["path"], got[0], a["want"][0])
+
+
 def judge_choice(ctx, hist, row, stats):
     byi = {o["step"]: o for o in row["obs"]}
     for i, a in enumerate(hist):
+        if a["a"] in CONSENSUS:
+            stats["consensus"][a["a"]] = stats["consensus"].get(a["a"], 0) + 1
         if a["a"] != "Request":
             continue
         stats["requests"] += 1
@@ -162,11 +206,10 @@ def judge_choice(ctx, hist, row, stats):
         if impl != want:
             stats["model_deviations"] += 1
         where = "request %d (addr %s, handler %s, client id %r, node %r)" % (i, a["addr"], a["h"], a["c"], a["node"])
+        if a["node"] and outside_consensus(hist, i) == "unchanged" and prev_suffrage(hist, i):
+            stats["dropped_same_hash"] += 1
         if got != want:
-            if got == impl and path in CACHED:
-                key = CACHED[path]
-            else:
-                key = "choice(path=%s;got=%s;want=%s)" % (path, got[0], want[0])
+            key = choice_key(hist, i, got)
             ctx.violation(key, "%s was limited by the %s rule %s%s, the precedence of the statement gives the %s rule %s%s; history: %s" % (
                 where, got[0], o["limiter"], " (%s)" % got[2] if got[2] else "",
                 want[0], want[1], " (%s)" % want[2] if want[2] else "",
@@ -185,7 +228,8 @@ def judge_choice(ctx, hist, row, stats):
 
 def run(ctx):
     quick = ctx.tier == "quick"
-    stats = {"requests": 0, "paths": {}, "model_deviations": 0, "model_only": [], "model_allowed": 0, "model_refused": 0}
+    stats = {"requests": 0, "paths": {}, "model_deviations": 0, "model_only": [], "model_allowed": 0, "model_refused": 0,
+             "consensus": {}, "dropped_same_hash": 0}
     # ---------------------------------------------------------------- histories of the model
     # the TLC runs are independent: they run side by side, each in its own sub-directory of the work directory
     t0 = time.time()
@@ -206,16 +250,22 @@ def run(ctx):
         return c.tlc("RateLimit", cfg, allow_violation=True, timeout=900, count=False)
 
     jobs = ([(dump, (cfg,)) for cfg in dumps] + [(walk, sm) for sm in sims] +
-            [(candidate, ("RateLimit_mc_candidate.cfg",)), (candidate, ("RateLimit_mc_bucket_candidate.cfg",))])
+            [(candidate, ("RateLimit_mc_sufcheck_candidate.cfg",)),
+             (candidate, ("RateLimit_mc_candidate.cfg",)), (candidate, ("RateLimit_mc_bucket_candidate.cfg",))])
     subs = [subctx(ctx, k) for k in range(len(jobs))]
-    with concurrent.futures.ThreadPoolExecutor(max_workers=6 if quick else 2) as ex:
+    with concurrent.futures.ThreadPoolExecutor(max_workers=7 if quick else 2) as ex:
         futs = [ex.submit(f, c, *args) for (f, args), c in zip(jobs, subs)]
         done = [f.result() for f in futs]      # a MachineryError of a run is raised here
     for c in subs:
         ctx.states += c.states
         ctx.transitions += c.transitions
         ctx.tlc_cmds += c.tlc_cmds
-    parts, walks, (rc, rb) = done[:len(dumps)], done[len(dumps):len(dumps) + len(sims)], done[-2:]
+    parts, walks, (rs, rc, rb) = done[:len(dumps)], done[len(dumps):len(dumps) + len(sims)], done[-3:]
+    if rs.violated != "SuffrageOnlyInConsensus":
+        raise core.MachineryError("SuffrageOnlyInConsensus is not violated when a cached suffrage limiter is returned on an unchanged "
+                                  "state hash without asking exists(node) (RateLimit_mc_sufcheck_candidate.cfg): membership and state "
+                                  "hash are not independent in the model any more\n" + rs.out[-2000:])
+    ctx.extra["model_candidate_hash_before_exists"] = "SuffrageOnlyInConsensus violated (as it must be)"
     ctx.exhaustive = True
     ctx.extra["model_candidate_ImplMatchesChoose"] = ("violated on the transcription (see DeviationOnlyViaCache)"
                                                       if rc.safety_violation else "holds on the transcription")
@@ -259,6 +309,11 @@ def run(ctx):
         raise core.MachineryError("no history of the model empties a bucket: the enforcement half would be vacuous")
     ctx.extra["requests"] = stats["requests"]
     ctx.extra["requests_by_code_path(model)"] = stats["paths"]
+    ctx.extra["consensus_actions_replayed"] = stats["consensus"]
+    ctx.extra["requests_after_node_left_consensus_under_unchanged_state_hash"] = stats["dropped_same_hash"]
+    if not stats["dropped_same_hash"]:
+        raise core.MachineryError("no history has a request of a limiter instance whose node left the consensus nodes under an "
+                                  "unchanged suffrage state hash after a suffrage-rule request: that dimension would be vacuous")
     ctx.extra["model_deviations_from_statement"] = stats["model_deviations"]
     ctx.extra["model_only_counterexamples"] = stats["model_only"][:20]
     ctx.extra["model_requests_allowed/refused"] = [stats["model_allowed"], stats["model_refused"]]
@@ -319,6 +374,8 @@ def run(ctx):
         "tight catalogues: the same rule (1/3s, 2/3s) stands in several rule sets, type and description name it",
         "network rule maps have a rule for every handler: the two readings of 'first matching network rule' (first network "
         "containing the address vs first network containing it that has a rule for the handler) coincide",
+        "IsInConsensusNodesFunc is the harness': exists(node) and the suffrage state hash are set independently (in production "
+        "the hash is the suffrage state's, exists also covers the candidates); it never returns an error",
         "the node of an address is the one given to AddNode; 30 microseconds pass between two actions so that "
         "time.Now().UnixNano() differs (the code compares UpdatedAt with >=)",
         "enforcement: 'the rule' of a window is the rule in force (limit, burst as the limiter reports them after each call); only "
@@ -359,7 +416,7 @@ def replay(ctx, path):
         raise core.MachineryError("nothing to judge in %s" % path)
     got = [o["type"], o["burst"], o["desc"]]
     if got != a["want"]:
-        key = CACHED[a["path"]] if (got == a["impl"] and a["path"] in CACHED) else "choice(path=%s;got=%s;want=%s)" % (a["path"], got[0], a["want"][0])
+        key = choice_key(hist, i, got)
         ctx.violation(key, "request %d (addr %s, handler %s, client id %r) was limited by the %s rule %s, the statement gives the %s rule %s" % (
             i, a["addr"], a["h"], a["c"], got[0], o["limiter"], a["want"][0], a["want"][1]), {"history": hist, "observed": row["obs"], "request": i})
     elif got[1] > 0 and abs(o.get("per_ns", 0) - PER_NS) > 3000:
